@@ -11,8 +11,10 @@
 (*       same variant / field names / order / leaves; reported variant      *)
 (*       indices follow the codec's rule                                    *)
 (*  C17  no PhantomData member is listed                                    *)
+(*  C02  the registry containing the derived type is the faithful image of  *)
+(*       the compile-time graph reachable from it (`Faithful` events)       *)
 (***************************************************************************)
-EXTENDS Derive, ScaleValue, Json, IOUtils
+EXTENDS Derive, ScaleValue, SITypes, Json, IOUtils
 CONSTANT Check
 Rec == ndJsonDeserialize(IOEnv.TRACE)
 VARIABLES l, decls, cur
@@ -40,6 +42,7 @@ Next == /\ l <= Len(Rec)
              [] e.ev = "Derived" -> AcceptDerived(e) /\ UNCHANGED <<decls, cur>>
              [] e.ev = "Type" -> cur' = e /\ decls' = decls
              [] e.ev = "Value" -> AcceptValue(e) /\ UNCHANGED <<decls, cur>>
+             [] e.ev = "Faithful" -> (Check = "C02" => FaithfulOK(e.nodes, e.types)) /\ UNCHANGED <<decls, cur>>
         /\ l' = l + 1
 Spec == Init /\ [][Next]_vars
 Track == TLCSet(1, l)
